@@ -1022,6 +1022,9 @@ class Env:
                 v = AstClass(self.interp, d, self)
             else:
                 v = Closure(self.interp, d, self)
+                if any(txt(x).split(".")[-1] == "contextmanager"
+                       for x in d.decorator_list):
+                    v = _GenContext.factory(v)
             self.cache[name] = v
             return v
         if name in self.assigns:
@@ -1380,6 +1383,35 @@ def _itemgetter(*keys):
         vals = [one(k) for k in keys]
         return vals[0] if len(vals) == 1 else tuple(vals)
     return get
+
+
+class _GenContext:
+    """@contextlib.contextmanager function: the value of the (single)
+    yield is bound by the with statement.  Approximation on the model: the
+    code after the yield runs when the context is *entered*, not when it is
+    left (generators are evaluated eagerly) - sound for managers whose
+    clean-up has no effect the analysed body can observe."""
+    _strict_attrs = True
+
+    def __init__(self, clo, args, kwargs):
+        self._clo, self._args, self._kwargs = clo, args, kwargs
+
+    @staticmethod
+    def factory(clo):
+        def make(*a, **k):
+            return _GenContext(clo, a, k)
+        make.__name__ = clo.__name__
+        return make
+
+    def __enter__(self):
+        vals = list(self._clo(*self._args, **self._kwargs))
+        if len(vals) != 1:
+            raise ModelFault("RuntimeError", "generator of a context "
+                             f"manager yielded {len(vals)} values")
+        return vals[0]
+
+    def __exit__(self, *a):
+        return False
 
 
 class ModelExitStack:
